@@ -382,9 +382,10 @@ fn serialise_router_advertisement(a: &RtrAdvertisement) -> Vec<u8> {
         if a.flag_managed { 0x80_u8 } else { 0x00_u8 }
             | if a.flag_other { 0x40_u8 } else { 0x00_u8 },
     );
-    v.serialise(a.lifetime.as_secs() as u16);
-    v.serialise(a.reachable.as_millis() as u32);
-    v.serialise(a.retrans.as_millis() as u32);
+    /* A value the field cannot hold is sent as the largest value it can hold, never wrapped. */
+    v.serialise(u16::try_from(a.lifetime.as_secs()).unwrap_or(u16::MAX));
+    v.serialise(u32::try_from(a.reachable.as_millis()).unwrap_or(u32::MAX));
+    v.serialise(u32::try_from(a.retrans.as_millis()).unwrap_or(u32::MAX));
     for opt in &a.options.0 {
         match opt {
             NDOptionValue::SourceLLAddr(src) => {
@@ -407,8 +408,8 @@ fn serialise_router_advertisement(a: &RtrAdvertisement) -> Vec<u8> {
                     if prefix.onlink { 0x80_u8 } else { 0x00_u8 }
                         | if prefix.autonomous { 0x40_u8 } else { 0x00_u8 },
                 );
-                v.serialise(prefix.valid.as_secs() as u32);
-                v.serialise(prefix.preferred.as_secs() as u32);
+                v.serialise(u32::try_from(prefix.valid.as_secs()).unwrap_or(u32::MAX));
+                v.serialise(u32::try_from(prefix.preferred.as_secs()).unwrap_or(u32::MAX));
                 v.serialise(0_u32);
                 v.serialise(&prefix.prefix);
             }
@@ -417,7 +418,7 @@ fn serialise_router_advertisement(a: &RtrAdvertisement) -> Vec<u8> {
                 v.serialise(RDNSS.0);
                 v.serialise(u8::try_from(1 + servers.len() * 2).unwrap());
                 v.serialise(0_u16); // Reserved / Padding.
-                v.serialise(lifetime.as_secs() as u32);
+                v.serialise(u32::try_from(lifetime.as_secs()).unwrap_or(u32::MAX));
                 for server in servers {
                     v.serialise(server);
                 }
@@ -438,7 +439,7 @@ fn serialise_router_advertisement(a: &RtrAdvertisement) -> Vec<u8> {
                 v.serialise(DNSSL.0);
                 v.serialise(1 + (dnssl.v.len() / 8) as u8);
                 v.serialise(0_u16); // Reserved / Padding.
-                v.serialise(lifetime.as_secs() as u32);
+                v.serialise(u32::try_from(lifetime.as_secs()).unwrap_or(u32::MAX));
                 v.serialise(&dnssl.v);
             }
             NDOptionValue::Pref64((lifetime, prefixlen, prefix)) => {
